@@ -128,9 +128,13 @@ class TimeRange(Contract):
         (d1, t1), (d2, t2) = inp['datetime1'], inp['datetime2']
         eod, step, n = inp['eod'], inp['step'], inp['n']
         k = env.ghost['k']
-        return And(ge(k, 0), le(k, n), ge(env['time1'], 0), lt(env['time1'], eod),
-                   eq(env['date2'], d2), eq(env['time2'], t2),
-                   eq(T(env['date1'], env['time1'], eod), add(T(d1, t1, eod), mul(k, step))))
+        # the loop runs `while <current instant> != <last instant>`: the invariant speaks about the two operands of that test,
+        # however the function stores them (two pairs of locals, two tuples, ...)
+        test = env.node.test
+        (cd, ct), (sd, st_) = env.eval(test.left), env.eval(test.comparators[0])
+        return And(ge(k, 0), le(k, n), ge(ct, 0), lt(ct, eod),
+                   eq(sd, d2), eq(st_, t2),
+                   eq(T(cd, ct, eod), add(T(d1, t1, eod), mul(k, step))))
 
     def variant(self, env):
         return sub(self.inp['n'], env.ghost['k'])
